@@ -99,6 +99,36 @@ def run_c29(chk, F, tier):
     p = cfgutil.paths_avoiding(succ, 0, set(sy.returns()), cmp_blocks)
     chk.check(bool(cmp_blocks) and p is None, "R29c", "sync:exit-only-when-unchanged",
               "sync_reloaded_open_files can return without comparing the snapshot versions", sy.loc())
+    # R29e: the reconciliation loop carries the whole snapshot to its next round
+    chk.rule("R29e", "sync_reloaded_open_files replaces its applied snapshot as a whole on each round (files and version together): the set of "
+                     "documents closed since the last round is computed against it")
+    snap_locals = [l for l in range(len(sy.locals)) if sy.local_ty_str(l).endswith("OpenFilesSnapshot")]
+    sy_succ = sy.succ_map()
+    sy_loops = cfgutil.natural_loops(sy_succ, 0)
+    nfw = 0
+    for l in snap_locals:
+        whole, fields = [], {}
+        for bi, blk in enumerate(sy.blocks):
+            if blk[0]:
+                continue
+            for st in blk[1]:
+                if st[0] == "a" and st[1][0] == l:
+                    inloop = any(bi in body for body in sy_loops.values())
+                    if not inloop:
+                        continue
+                    if len(st[1]) == 1:
+                        whole.append(bi)
+                    else:
+                        for e in st[1][1:]:
+                            if isinstance(e, list) and e[0] == "f":
+                                fields.setdefault(e[2], []).append(bi)
+        if fields:
+            nfw += 1
+            chk.check("files" in fields or bool(whole), "R29e", "snapshot-carried:%s" % (sy.local_name(l) or "_%d" % l),
+                      "the reconciliation loop updates only %s of its applied snapshot: the file list stays the one captured when the reload started, so a "
+                      "document opened and closed again during the reload is not recognised as closed and keeps the editor text instead of the disk text"
+                      % sorted(fields), sy.loc(), sample={"rule": "R29e", "verdict": "whole snapshot replaced"})
+    chk.unit("snapshot locals in the reconciliation loop", len(snap_locals))
     # R29d: the snapshot version that the reconciliation loop compares must change whenever an open text changes
     chk.rule("R29d", "every mutation of WorkspaceManager.open_file_texts is followed by a bump of open_file_state_version on every path")
     WM = LS + "::context::workspace_manager::WorkspaceManager"
